@@ -79,3 +79,12 @@ func (v *VerifLineTransfer) StripTmuxStatusLine(buf []byte) []byte {
 
 // QueueLen is the number of chunks queued and not yet taken by a reader.
 func (v *VerifBuffer) QueueLen() int { return len(v.b.bufCh) }
+
+// QueueLen is the number of chunks queued and not yet taken by recvLine.
+func (v *VerifLineTransfer) QueueLen() int { return len(v.t.buffer.bufCh) }
+
+// Reset pops everything that is unread; afterwards the buffer is as new.
+func (v *VerifLineTransfer) Reset() {
+	for v.t.buffer.popBuffer() != nil {
+	}
+}
